@@ -12,6 +12,7 @@
 (*   mark   var = obj.mark()   (returns an instance of a nested class)      *)
 (*   mode   var = mod.mode_of(obj)   (returns an enum member)               *)
 (*   boom   var = obj.boom()   (raises; only as the last statement)         *)
+(*   note   var = obj.note()   (changes a nested list of the object in place)*)
 (* The abstract pipeline itself is Pipeline.tla; here TLC only enumerates   *)
 (* the inputs that are replayed through the real assertion generation,      *)
 (* statement minimisation (every strategy and direction) and export.        *)
